@@ -1,4 +1,6 @@
 import WM.Lemmas.QualityWrap
+import WM.Lemmas.QualityMulti
+import WM.Lemmas.QualityCombo
 /-! The quality contract (C12) assembled along the `Shape`. -/
 namespace WM.Matcher
 
@@ -18,6 +20,8 @@ def W0 (PB : Rat → Prop) : (s : Shape) → St s → Prop
   | .filter c, m => (W0 PB c m.child ∧ Filter.Passes (den c) m.ids m.exclude m.child) ∧ PB m.boost
   | .inverse c, m => (W0 PB c m.child ∧ Inverse.Stops (den c) m.limit m.missing m.child m.id) ∧ 0 ≤ m.weight
   | .const c, m => W0 PB c m.child ∧ 0 ≤ m.score
+  | .multi c, m => Multi.WF (ops c) (den c) (full c) (W0 PB c) m
+  | .aunion c, m => AUnion.WF (den c) (full c) (W0 PB c) m
 
 /-- … and, in addition, every part whose quality is consulted supports block quality (`supports_block_quality()`):
     list leaves carry a scorer, no `InverseMatcher` on a scored path. -/
@@ -35,6 +39,8 @@ def WQ (PB : Rat → Prop) : (s : Shape) → St s → Prop
   | .filter c, m => (WQ PB c m.child ∧ Filter.Passes (den c) m.ids m.exclude m.child) ∧ PB m.boost
   | .inverse _, _ => False
   | .const c, m => WQ PB c m.child ∧ 0 ≤ m.score
+  | .multi c, m => Multi.WF (ops c) (den c) (full c) (WQ PB c) m
+  | .aunion c, m => AUnion.WF (den c) (full c) (WQ PB c) m
 
 theorem tree_qfaithful (PB : Rat → Prop) (hPB : ∀ b, PB b → 0 < b) :
     ∀ s : Shape, QFaithful (ops s) (den s) (full s) (WQ PB s) (W0 PB s)
@@ -51,6 +57,8 @@ theorem tree_qfaithful (PB : Rat → Prop) (hPB : ∀ b, PB b → 0 < b) :
   | .filter c => Filter.qfaithful PB hPB (tree_qfaithful PB hPB c)
   | .inverse c => Inverse.qfaithful (tree_qfaithful PB hPB c)
   | .const c => Const.qfaithful (tree_qfaithful PB hPB c)
+  | .multi c => Multi.qfaithful (tree_qfaithful PB hPB c)
+  | .aunion c => AUnion.qfaithful (tree_qfaithful PB hPB c)
 
 /-- `W0` implies the plain cursor invariant `WF` of C11 -/
 theorem W0.wf (PB : Rat → Prop) : ∀ (s : Shape) (m : St s), W0 PB s m → WF s m
@@ -67,5 +75,7 @@ theorem W0.wf (PB : Rat → Prop) : ∀ (s : Shape) (m : St s), W0 PB s m → WF
   | .filter c, m, h => ⟨W0.wf PB c m.child h.1.1, h.1.2⟩
   | .inverse c, m, h => ⟨W0.wf PB c m.child h.1.1, h.1.2⟩
   | .const c, m, h => W0.wf PB c m.child h.1
+  | .multi c, _, h => h.mono (W0.wf PB c)
+  | .aunion c, _, h => h.mono (W0.wf PB c)
 
 end WM.Matcher
